@@ -68,6 +68,11 @@ def pathnameHasWindowsDrive : List Nat → Bool
 
 def sFilePrefix := asciiStr "file://"
 
+/-- the final check of url_from_file_path: a URL whose hostname is "." is not returned
+    (`file_url.hostname() == "."` → file_unsupported_path) -/
+def rejectDotHost (o : Option Url) : Option Url :=
+  o.bind (fun u => if u.hostText = [0x2E] then none else some u)
+
 /-- upa::url_from_file_path on decoded input; none = url_error -/
 def urlFromFilePath (idna : Idna) (s : List Nat) (fmt : PathFormat) : Option Url :=
   match s with
@@ -78,7 +83,7 @@ def urlFromFilePath (idna : Idna) (s : List Nat) (fmt : PathFormat) : Option Url
       if c0 ≠ 0x2F then none
       else if hasDotDotSegment (· == 0x2F) none s then none
       else if s.any (· == 0) then none
-      else parse idna .u8 (sFilePrefix ++ percentEncode posixPathNoEnc s) none
+      else rejectDotHost (parse idna .u8 (sFilePrefix ++ percentEncode posixPathNoEnc s) none)
     | .windows =>
       let (pointer, isUnc) : List Nat × Bool :=
         match s with
@@ -103,7 +108,8 @@ def urlFromFilePath (idna : Idna) (s : List Nat) (fmt : PathFormat) : Option Url
         if hasDotDotSegment isWindowsSlash none chk then none
         else if chk.any (· == 0) then none
         else
-          parse idna .u8 (sFilePrefix ++ (if isUnc then [] else [0x2F]) ++ percentEncode rawPathNoEnc pointer) none
+          rejectDotHost
+            (parse idna .u8 (sFilePrefix ++ (if isUnc then [] else [0x2F]) ++ percentEncode rawPathNoEnc pointer) none)
 
 /-- upa::path_from_file_url; none = url_error; result is a UTF-8 byte string -/
 def pathFromFileUrl (u : Url) (fmt : PathFormat) : Option (List Nat) :=
